@@ -94,7 +94,7 @@ func hookIdOfClass(cls string) (int, bool) {
 
 func (d *simDriver) workflowYAML(name string, n int, in Input) string {
 	var b strings.Builder
-	fmt.Fprintf(&b, "name: %s\ndefaults:\n  deploy_timeout: 5s\nroles:\n", name)
+	fmt.Fprintf(&b, "name: %s\ndefaults:\n  deploy_timeout: 2s\nroles:\n", name)
 	fmt.Fprintf(&b, "  - name: \"t0\"\n    task:\n      load: c%dt0\n      critical: true\n", n)
 	for _, h := range in.Hooks {
 		switch h.Kind {
@@ -125,27 +125,38 @@ func (d *simDriver) run(in Input) (obs Obs) {
 	os.WriteFile(filepath.Join(d.s.RepoDir, "workflows", name+".yaml"), []byte(d.workflowYAML(name, n, in)), 0o644)
 	d.s.Consul.Set("o2/runtime/run_number", "0")
 	d.cap.setEnv("") // nothing of the creation is recorded
-	id := uid.New()
+	// creation is not what is examined here: the DEPLOY wait loop of the core occasionally misses
+	// the ACTIVE notification and times out (recorded under C03); such a creation is repeated
 	type cres struct {
 		id  uid.ID
 		err error
 	}
-	cch := make(chan cres, 1)
-	go func() {
-		i, err := d.s.Envman.CreateEnvironment(name, map[string]string{}, false, id, false)
-		cch <- cres{i, err}
-	}()
-	select {
-	case r := <-cch:
-		if r.err != nil {
-			obs.Note = "cannot create environment: " + r.err.Error()
+	var id uid.ID
+	created := false
+	for attempt := 0; attempt < 4 && !created; attempt++ {
+		id = uid.New()
+		cch := make(chan cres, 1)
+		go func(id uid.ID) {
+			i, err := d.s.Envman.CreateEnvironment(name, map[string]string{}, false, id, false)
+			cch <- cres{i, err}
+		}(id)
+		select {
+		case r := <-cch:
+			if r.err == nil {
+				created = true
+			} else {
+				obs.Note = "cannot create environment: " + r.err.Error()
+			}
+		case <-time.After(30 * time.Second):
+			obs.Note = "creation did not return"
+			obs.Hung = true
 			return
 		}
-	case <-time.After(30 * time.Second):
-		obs.Note = "creation did not return"
-		obs.Hung = true
+	}
+	if !created {
 		return
 	}
+	obs.Note = ""
 	env, err := d.s.Envman.Environment(id)
 	if err != nil || env == nil || env.CurrentState() != "CONFIGURED" {
 		obs.Note = "environment not CONFIGURED after creation"
@@ -207,9 +218,24 @@ func (d *simDriver) run(in Input) (obs Obs) {
 		}
 	}
 	waitQuiet(rec)
-	obs.Recs = rec.Records()
+	obs.Recs = mergeTriggers(rec.Records())
 	d.cap.setEnv("")
 	return
+}
+
+// mergeTriggers: the core sends one trigger command per executor; the hook tasks of one weight are
+// triggered by consecutive commands (the generator puts a call in front of every task hook, so
+// the commands of two weights are never adjacent): they are one "hook tasks triggered" record.
+func mergeTriggers(recs []Rec) []Rec {
+	var out []Rec
+	for _, r := range recs {
+		if n := len(out); r.Kind == "T" && n > 0 && out[n-1].Kind == "T" && out[n-1].Op == r.Op {
+			out[n-1].Tasks = append(append([]int(nil), out[n-1].Tasks...), r.Tasks...)
+			continue
+		}
+		out = append(out, r)
+	}
+	return out
 }
 
 // settle waits until the task manager has digested the state announcements of the environment's
